@@ -117,6 +117,9 @@ type Frame struct {
 	entry    *State // state at function entry (for old())
 	params   map[string]CV
 	inlined  bool
+	// helper: a named function without a contract executed in place (autoInline): the preconditions of
+	// contracted callees inside it are assumed, not charged to the caller (the helper is not under contract)
+	helper bool
 	parent   *Frame
 	envCells map[string]interface{} // closure verified on its own: variables of the enclosing function captured by sibling closures
 	envTypes map[string]types.Type
